@@ -1,11 +1,11 @@
 SPECIFICATION Spec
 CONSTANTS
   IH = 1
-  Shape <- ShapeDup
+  Shape <- ShapeE
   MaxDup = 1
   MaxCrashes = 1
   MaxRestarts = 1
-  Alias = FALSE
+  Alias = TRUE
   BlockFirst = TRUE
   ApplyAtStart = TRUE
   Mix = TRUE
